@@ -30,6 +30,9 @@ NONTRIVIAL = {
     # values: a key must not be left out (or reported with another value) because of what it holds
     "get_match_matching_key_holds_None", "get_match_matching_key_holds_a_falsy_value", "matching_key_holds_a_bit_field",
     "tx_None_written_over_a_matching_store_value", "tx_value_written_over_a_matching_bit_field",
+    # several commands in one transaction: an earlier delete_match, a write, the pattern command again
+    "tx_delete_match_then_write_then_pattern_command", "tx_delete_match_repeated_with_the_identical_pattern",
+    "tx_identical_delete_match_after_a_marked_store_key_was_written_again",
 }
 
 TRUSTED = [
@@ -98,7 +101,7 @@ def _with_slot(case: dict, slot, text: str):
             if k[0] == x:
                 k[0] = text
         for op in c.get("txops") or []:
-            if op[1] == x:
+            if op[0] not in G.PATTERN_OPS and op[1] == x:
                 op[1] = text
     elif kind == "arg":
         c["args"][x] = text
@@ -345,6 +348,23 @@ def split_cases(chk: Check, n_sample: int | None) -> list[tuple[str, dict]]:
     return out
 
 
+def multi_cases(chk: Check, n_sample: int | None) -> list[tuple[str, dict]]:
+    """pattern command, write, pattern command again inside one transaction: the whole space x 3 modes in the
+    thorough tier, a seeded sample (one mode each) in quick"""
+    space = list(G.multi_space())
+    out = []
+    if n_sample is None:
+        todo = [(pt, mode) for pt in space for mode in ("fast", "locked", "serializable")]
+    else:
+        todo = [(chk.rng.choice(space), chk.rng.choice(["fast", "locked", "serializable"])) for _ in range(n_sample)]
+    for pt, mode in todo:
+        c = G.multi_case(*pt, mode)
+        if G.well_formed(c):
+            pl, first, w, cmd, pat = pt
+            out.append((f"multi:{''.join(pl)}:{first[0]}:{first[1]}:{w[0]}:{w[1]}:{cmd}:{pat}:{mode}", c))
+    return out
+
+
 def run(chk: Check) -> int:
     proof = proof_stage(PROP, "driver_c13", chk.thorough) if not getattr(chk, "skip_proof", False) else None
     rng = chk.rng
@@ -424,6 +444,12 @@ def run(chk: Check) -> int:
         st["tx_splits"] = len(splits)
         stop = run_batch(splits)
 
+    # 3b. several commands in one transaction: pattern command, write, pattern command again
+    if not stop:
+        multi = multi_cases(chk, None if chk.thorough else 1500)
+        st["tx_multi"] = len(multi)
+        stop = run_batch(multi)
+
     # 4. random longer patterns / keys over the full metacharacter alphabet, all entry points
     if not stop:
         stop = run_batch(gen_cases(chk, chk.budget(6000, 150000)))
@@ -464,6 +490,14 @@ def run(chk: Check) -> int:
         "pyglob_selfcheck_pairs": st.get("pyglob_selfcheck_pairs", 0),
         "corpus_cases": len(corpus),
         "tx_split_cases": st.get("tx_splits", 0),
+        "tx_multi_command_cases": st.get("tx_multi", 0),
+        "tx_multi_command_rule": "inside one transaction: an earlier pattern command (delete_match with the judged pattern, delete_match with "
+                                 "another pattern selecting part of / more than it, scan, get_match), then a write (set, set with ttl, delete) of one of "
+                                 "three keys (each absent / in the store / expired-unpurged: 27 stores), then the judged pattern command (scan, get_match, "
+                                 "delete_match, pattern a.* or a.b*): 7290 points; thorough: all x 3 modes, quick: 1500 drawn from VERIF_SEED. 40% of the "
+                                 "random transaction cases also carry 1-2 earlier pattern commands (identical pattern or another) between their writes. "
+                                 "Judged like every transaction case: result and keys left inside the transaction = glob spec on the directly updated "
+                                 "store (driver) = the same commands executed directly (real code) = keys left after commit",
         "value_grid_cases": st.get("value_grid", 0),
         "value_alphabet": {"plain": G.PLAIN_VALS, "bit_fields": G.BIT_VALS,
                            "legend": "n None; i:<k> int; t:<k> str; e:s '' e:b b'' e:l [] e:f False e:d {} e:z 0.0 e:u () e:T True; "
@@ -474,7 +508,9 @@ def run(chk: Check) -> int:
         "partial": "templating of the invalidate key (str.format of the arguments) is executed, not modelled: the harness substitutes the "
                    "arguments itself (C08 covers key templates); keys/patterns longer than ~12 characters and stores of more than 1555 keys are "
                    "not sampled; only the in-memory backend is run (Redis' own MATCH globbing, also anchored by the property, cannot be run here); "
-                   "a deadline elapsing inside a transaction is excluded (proviso of C03/C04); bit fields are created in the store before the "
+                   "a deadline elapsing inside a transaction is excluded (proviso of C03/C04); "
+                   "results of the EARLIER pattern reads of a multi-command transaction are not compared (only the judged last command is; whole "
+                   "histories with every answer compared are C03/C04's harness, harness/txhist.py); bit fields are created in the store before the "
                    "transaction only (incr_bits inside a transaction is proxied straight to the backend and is not a pattern-command matter; the "
                    "in-transaction get_match theorems carry the hypothesis that the overlay holds no bit-field object, proved preserved by the "
                    "transaction commands); values are compared by type and equality (a container value is one of [], {}, ()); decision on re.DOTALL: '*' stands for any run of "
